@@ -87,15 +87,21 @@ def gen_valid(rng, mult_max):
     for i in range(rng.range(1, 3)):
         r = rng.pick(roles)
         if rng.chance(1, 3):
-            n = rng.range(1, mult_max)
+            # (also 0, negative, signed and padded multiplicities: no actor, or the number as written)
+            n = rng.pick([0, -1, -2, "+2", "02", -99999]) if rng.chance(1, 6) else rng.range(1, mult_max)
             an = b"m%d_" % i
             L.append(ind + an + b"* play " + str(n).encode() + b" " + r[0] + (b"s" if rng.chance(1, 2) else b""))
-            for k in range(n):
+            for k in range(max(0, int(n))):
                 actors.append((an + str(k + 1).encode(), r))
         else:
             an = rng.pick(WORDS) + b"_" + str(i).encode()
             L.append(ind + an + b" plays " + r[0] + (b" with V=" + rng.pick(WORDS) if rng.chance(1, 2) else b""))
             actors.append((an, r))
+    if not actors:
+        # (every definition had a multiplicity that defines nobody)
+        r = rng.pick(roles)
+        L.append(ind + b"solo plays " + r[0])
+        actors.append((b"solo", r))
     L.append(b"end")
     L.append(b"script")
     L.append(ind + b"tempo " + rng.pick(DURS))
